@@ -118,8 +118,11 @@ theorem bsLoop (t : Str) (p : Nat) :
         Ev.starTail_stop (F := (c :: t).length + 2) (Ev.skip_off (by simp)) (Ev.str_fail hm)
       simpa [List.takeWhile, List.dropWhile, hb2] using h
 
-/-- `escape` fails everywhere in a source without `{{` (it needs one after the backslashes) -/
-theorem escape_fails (atom : Atom) (p : Nat) (s : Str) (h : noOpen s) :
+/-- `escape` fails where neither the text after a first backslash nor the text after the whole run of
+    backslashes begins with `{{` -/
+theorem escape_fails_local (atom : Atom) (p : Nat) (s : Str)
+    (h1 : ∀ p', matchStr ['{', '{'] ⟨p', s.tail⟩ = none)
+    (h2 : ∀ p', matchStr ['{', '{'] ⟨p', s.dropWhile isBs⟩ = none) :
     E (s.length + 12) atom (.rule .r_escape) ⟨p, s⟩ .fail := by
   apply Ev.rule_fail
   show E (s.length + 11) .atomic (.choice (.seq (.seq (.str ['\\']) (.str ['{', '{'])) _)
@@ -130,14 +133,13 @@ theorem escape_fails (atom : Atom) (p : Nat) (s : Str) (h : noOpen s) :
   | cons c t =>
     by_cases hc : c = '\\'
     · subst hc
-      have ht : noOpen t := noOpen_tail _ t h
       have hstr : E (t.length + 8) .atomic (.str ['\\']) ⟨p, '\\' :: t⟩ (.ok ⟨p + 1, t⟩ []) :=
         Ev.str_ok (F := t.length + 7) (by simp [matchStr])
       -- first alternative: the backslash, then no `{{`
       have alt1 : E (t.length + 11) .atomic (.seq (.seq (.str ['\\']) (.str ['{', '{'])) (.opt (.str ['{', '{'])))
           ⟨p, '\\' :: t⟩ .fail :=
         Ev.seq_fail1 (F := t.length + 10) (Ev.seq_fail2 (F := t.length + 9) (hstr.weaken (by omega)) (Ev.skip_off (by simp))
-          (Ev.str_fail (matchOpen_none (p + 1) t ht)))
+          (Ev.str_fail (h1 (p + 1))))
       -- second alternative: the run of backslashes, then no `{{`
       have alt2 : E (t.length + 11) .atomic
           (.seq (.seq (.str ['\\']) (.repOnce (.str ['\\']))) (.posPred (.str ['{', '{']))) ⟨p, '\\' :: t⟩ .fail := by
@@ -157,9 +159,11 @@ theorem escape_fails (atom : Atom) (p : Nat) (s : Str) (h : noOpen s) :
                 (.ok ⟨p + 2 + (t'.takeWhile isBs).length, t'.dropWhile isBs⟩ ([] ++ [] ++ ([] ++ []))) :=
               Ev.seq_ok (F := t'.length + 6) (Ev.str_ok (F := t'.length + 5) (st' := ⟨p + 1, '\\' :: t'⟩) (by simp [matchStr]))
                 (Ev.skip_off (by simp)) (hrep.weaken (by omega))
-            have hno : noOpen (t'.dropWhile isBs) := noOpen_dropWhile _ _ (noOpen_tail _ _ ht)
+            have hdw : ('\\' :: '\\' :: t').dropWhile isBs = t'.dropWhile isBs := by simp [List.dropWhile, isBs]
+            have hno := h2 (p + 2 + (t'.takeWhile isBs).length)
+            rw [hdw] at hno
             have := Ev.seq_fail2 (F := t'.length + 11) (hinner.weaken (by omega)) (Ev.skip_off (by simp))
-              (Ev.posPred_fail (F := t'.length + 10) (Ev.str_fail (F := t'.length + 9) (matchOpen_none _ _ hno)))
+              (Ev.posPred_fail (F := t'.length + 10) (Ev.str_fail (F := t'.length + 9) hno))
             have e1 : ('\\' :: t').length + 11 = t'.length + 11 + 1 := by rw [List.length_cons]
             rw [e1]; exact this
           · have hb : ('\\' == d) = false := beq_eq_false_iff_ne.mpr (fun e => hd e.symm)
@@ -173,6 +177,13 @@ theorem escape_fails (atom : Atom) (p : Nat) (s : Str) (h : noOpen s) :
     · have hb : ('\\' == c) = false := beq_eq_false_iff_ne.mpr (fun e => hc e.symm)
       have hm : matchStr ['\\'] ⟨p, c :: t⟩ = none := by simp [matchStr, hb]
       exact Ev.choice_right (Ev.seq_fail1 (Ev.seq_fail1 (Ev.str_fail hm))) (Ev.seq_fail1 (Ev.seq_fail1 (Ev.str_fail hm)))
+
+/-- `escape` fails everywhere in a source without `{{` (it needs one after the backslashes) -/
+theorem escape_fails (atom : Atom) (p : Nat) (s : Str) (h : noOpen s) :
+    E (s.length + 12) atom (.rule .r_escape) ⟨p, s⟩ .fail :=
+  escape_fails_local atom p s
+    (fun p' => matchOpen_none p' _ (by cases s with | nil => trivial | cons c t => exact noOpen_tail c t h))
+    (fun p' => matchOpen_none p' _ (noOpen_dropWhile _ _ h))
 
 /-- one character of a source without `{{` is one element of `raw_text` -/
 theorem rawElem_step (p : Nat) (c : Char) (t : Str) (h : noOpen (c :: t)) :
@@ -230,31 +241,38 @@ theorem alt_of_raw_text (F : Nat) (st st' : St) (toks : List (Tok Rule))
 def plainToks (n : Nat) : List (Tok Rule) :=
   [⟨some .r_template, 0, n⟩, ⟨some .r_raw_text, 0, n⟩, ⟨none, n, n⟩]
 
-theorem handlebars_plain (c : Char) (t : Str) (hs : noOpen (c :: t)) :
-    E ((c :: t).length + 80) .nonAtomic (.rule .r_handlebars) ⟨0, c :: t⟩
-      (.ok ⟨(c :: t).length, []⟩ (plainToks (c :: t).length)) := by
-  let n := (c :: t).length
-  have hraw := raw_text_plain c t hs
+/-- from one `raw_text` pair spanning the whole source (with whatever inner pairs) to the pair stream of
+    `handlebars`: template( raw_text( inner… ) ) EOI -/
+theorem handlebars_of_raw_text (q : Str) (inner : List (Tok Rule)) (F : Nat)
+    (hraw : E F .nonAtomic (.rule .r_raw_text) ⟨0, q⟩ (.ok ⟨q.length, []⟩ (⟨some .r_raw_text, 0, q.length⟩ :: inner))) :
+    E (F + 80) .nonAtomic (.rule .r_handlebars) ⟨0, q⟩
+      (.ok ⟨q.length, []⟩ (⟨some .r_template, 0, q.length⟩ :: ⟨some .r_raw_text, 0, q.length⟩ :: (inner ++ [⟨none, q.length, q.length⟩]))) := by
+  let n := q.length
   have halt := alt_of_raw_text _ _ _ _ hraw
-  -- template body: rep
-  have hrep : E (n + 70) .nonAtomic (.rep templateAlt) ⟨0, c :: t⟩
-      (.ok ⟨n, []⟩ ([⟨some .r_raw_text, 0, n⟩] ++ [])) :=
-    Ev.rep_some (F := n + 69) (halt.weaken (by omega))
-      (Ev.starTail_stop (F := n + 68) ((skip_eoi .nonAtomic n).weaken (by omega)) ((alt_fails_eoi .nonAtomic n).weaken (by omega)))
-  have htmpl := Ev.rule_ok (G := rules) (ws := ws) (atom := .nonAtomic) (r := Rule.r_template) (F := n + 70)
-    (st := ⟨0, c :: t⟩) (st' := ⟨n, []⟩) (toks := [⟨some .r_raw_text, 0, n⟩])
+  have hrep : E (F + 70) .nonAtomic (.rep templateAlt) ⟨0, q⟩
+      (.ok ⟨n, []⟩ ((⟨some .r_raw_text, 0, n⟩ :: inner) ++ [])) :=
+    Ev.rep_some (F := F + 69) (halt.weaken (by omega))
+      (Ev.starTail_stop (F := F + 68) ((skip_eoi .nonAtomic n).weaken (by omega)) ((alt_fails_eoi .nonAtomic n).weaken (by omega)))
+  have htmpl := Ev.rule_ok (G := rules) (ws := ws) (atom := .nonAtomic) (r := Rule.r_template) (F := F + 70)
+    (st := ⟨0, q⟩) (st' := ⟨n, []⟩) (toks := ⟨some .r_raw_text, 0, n⟩ :: inner)
     (by simpa [template_def, innerAtom] using hrep)
   have hty : (rules .r_template).ty = .normal := rfl
   simp only [hty] at htmpl
-  have hseq : E (n + 72) .nonAtomic (.seq (.rule .r_template) (.builtin .eoi)) ⟨0, c :: t⟩
-      (.ok ⟨n, []⟩ (([⟨some .r_template, 0, n⟩, ⟨some .r_raw_text, 0, n⟩] ++ []) ++ [⟨none, n, n⟩])) :=
-    Ev.seq_ok (F := n + 71) (by simpa using htmpl) ((skip_eoi .nonAtomic n).weaken (by omega)) (Ev.eoi_ok (F := n + 70))
-  have hh := Ev.rule_ok (G := rules) (ws := ws) (atom := .nonAtomic) (r := Rule.r_handlebars) (F := n + 72)
-    (st := ⟨0, c :: t⟩) (st' := ⟨n, []⟩) (toks := plainToks n)
-    (by simpa [handlebars_def, innerAtom, plainToks] using hseq)
+  have hseq : E (F + 72) .nonAtomic (.seq (.rule .r_template) (.builtin .eoi)) ⟨0, q⟩
+      (.ok ⟨n, []⟩ (((⟨some .r_template, 0, n⟩ :: ⟨some .r_raw_text, 0, n⟩ :: inner) ++ []) ++ [⟨none, n, n⟩])) :=
+    Ev.seq_ok (F := F + 71) (by simpa using htmpl) ((skip_eoi .nonAtomic n).weaken (by omega)) (Ev.eoi_ok (F := F + 70))
+  have hh := Ev.rule_ok (G := rules) (ws := ws) (atom := .nonAtomic) (r := Rule.r_handlebars) (F := F + 72)
+    (st := ⟨0, q⟩) (st' := ⟨n, []⟩) (toks := ⟨some .r_template, 0, n⟩ :: ⟨some .r_raw_text, 0, n⟩ :: (inner ++ [⟨none, n, n⟩]))
+    (by simpa [handlebars_def, innerAtom] using hseq)
   have hty2 : (rules .r_handlebars).ty = .silent := rfl
   simp only [hty2] at hh
   exact hh.weaken (by omega)
+
+theorem handlebars_plain (c : Char) (t : Str) (hs : noOpen (c :: t)) :
+    E ((c :: t).length + 100) .nonAtomic (.rule .r_handlebars) ⟨0, c :: t⟩
+      (.ok ⟨(c :: t).length, []⟩ (plainToks (c :: t).length)) := by
+  have := handlebars_of_raw_text (c :: t) [] _ (raw_text_plain c t hs)
+  simpa [plainToks] using this
 
 /-- **the parse of a plain source**: `HandlebarsParser::parse(Rule::handlebars, s)` succeeds with the
     three pairs template(0,n) raw_text(0,n) EOI(n,n) – for every non-empty string that does not contain
